@@ -69,32 +69,20 @@ Definition fproj_res (r : res) : sres :=
 
 (* ---- known deviations of MemFile / MemFS from os.File ------------------------- *)
 Inductive finding :=
-| KfAppendOpenOffset     (* OpenFile(O_APPEND) starts the handle at the end of the file; Linux starts at 0 *)
-| KfZeroLenRead          (* Read(empty buffer) on an open file: io.EOF or EBADF; os.File: (0, nil) *)
-| KfZeroLenReadAt        (* ReadAt(empty buffer): EBADF / io.EOF beyond the end; os.File: (0, nil) *)
-| KfZeroLenWrite         (* Write(empty) moves an O_APPEND offset to the end / zero-fills up to an offset beyond the end *)
-| KfZeroLenWriteAt       (* WriteAt(empty, off): EBADF, or extends the file to off; os.File: (0, nil), no effect *)
 | KfWriteAtAppend        (* WriteAt on an O_APPEND handle is carried out; os.File refuses it *)
-| KfClosedPriority       (* which error wins on a closed handle: offset / size validation versus closed *)
-| KfUnlinkDropsData.     (* removing (or renaming over) the last name of a file open somewhere empties its data *)
-
+(* directory handles *)
+| KfDirRestart           (* after io.EOF or ReadDir(n<=0) the next read starts the listing again; os stays at the end *)
+| KfDirAllAfterPartial   (* ReadDir(n<=0) after a partial read returns ALL entries; os returns the remaining ones *)
+| KfDirMixedCursors      (* ReadDir and Readdirnames keep separate caches behind one index *)
+| KfDirSeek.             (* Seek on a directory handle does nothing and returns 0; os rewinds / validates *)
 
 Definition finding_id (k : finding) : N :=
   match k with
-  | KfAppendOpenOffset => 2 | KfZeroLenRead => 3 | KfZeroLenReadAt => 4
-  | KfZeroLenWrite => 5 | KfZeroLenWriteAt => 6 | KfWriteAtAppend => 7 | KfClosedPriority => 8
-  | KfUnlinkDropsData => 9
+  | KfWriteAtAppend => 7 | KfDirRestart => 21 | KfDirAllAfterPartial => 22 | KfDirMixedCursors => 23 | KfDirSeek => 24
   end%N.
 
 Definition open_on (st : fstate) (i : nat) : bool :=
   existsb (fun o => negb (o_closed o) && Nat.eqb (o_ino o) i) (st_fds st).
-
-(* the last link of inode i is about to go while a description is open on non-empty data *)
-Definition drops_data (st : fstate) (i : nat) : bool :=
-  match nth_error (st_inodes st) i with
-  | Some ino => Z.eqb (i_nlink ino) 1 && negb (Nat.eqb (length (i_bytes ino)) 0) && open_on st i
-  | None => false
-  end.
 
 Definition fd_get (st : fstate) (fd : nat) : option (ofd * inode) :=
   match nth_error (st_fds st) fd with
@@ -104,70 +92,10 @@ Definition fd_get (st : fstate) (fd : nat) : option (ofd * inode) :=
 
 Definition kf02 (st : fstate) (op : fop) : option finding :=
   match op with
-  | Open name flag perm =>
-      match access_of flag, fst (fspec_step st op), snd (fspec_step st op) with
-      | Some a, st', S_Fd k =>
-          match fd_get st' k with
-          | Some (o, ino) =>
-              if o_app o && negb (Nat.eqb (length (i_bytes ino)) 0) then Some KfAppendOpenOffset else None
-          | None => None
-          end
-      | _, _, _ => None
-      end
-  | Read fd n =>
-      match fd_get st fd with
-      | Some (o, _) => if Z.leb n 0 && negb (o_closed o) then Some KfZeroLenRead else None
-      | None => None
-      end
-  | ReadAt fd n off =>
-      match fd_get st fd with
-      | Some (o, ino) =>
-          if Z.ltb off 0 then (if o_closed o then Some KfClosedPriority else None)
-          else if Z.leb n 0 then
-            if o_closed o then Some KfClosedPriority
-            else if negb (can_read (o_acc o)) || Z.ltb (zlen (i_bytes ino)) off then Some KfZeroLenReadAt
-            else None
-          else None
-      | None => None
-      end
-  | Write fd b | WriteString fd b =>
-      match fd_get st fd, b with
-      | Some (o, ino), [] =>
-          if negb (o_closed o) && can_write (o_acc o)
-             && (if o_app o then negb (Z.eqb (o_off o) (zlen (i_bytes ino))) else Z.ltb (zlen (i_bytes ino)) (o_off o))
-          then Some KfZeroLenWrite else None
-      | _, _ => None
-      end
   | WriteAt fd b off =>
       match fd_get st fd with
-      | Some (o, ino) =>
-          if o_app o then Some KfWriteAtAppend
-          else if Z.ltb off 0 then None
-          else match b with
-               | [] =>
-                   if o_closed o then Some KfClosedPriority
-                   else if negb (can_write (o_acc o)) || Z.ltb (zlen (i_bytes ino)) off then Some KfZeroLenWriteAt
-                   else None
-               | _ => None
-               end
+      | Some (o, _) => if o_app o then Some KfWriteAtAppend else None
       | None => None
-      end
-  | Ftruncate fd size =>
-      match fd_get st fd with
-      | Some (o, _) => if o_closed o && Z.ltb size 0 then Some KfClosedPriority else None
-      | None => None
-      end
-  | PRemove name =>
-      match lookup_name st name with
-      | Some i => if drops_data st i then Some KfUnlinkDropsData else None
-      | None => None
-      end
-  | PRename old new =>
-      match lookup_name st old, lookup_name st new with
-      | Some i, Some j =>
-          if Nat.eqb i j then None
-          else if drops_data st j then Some KfUnlinkDropsData else None
-      | _, _ => None
       end
   | _ => None
   end.
@@ -179,20 +107,10 @@ Definition kf02 (st : fstate) (op : fop) : option finding :=
 Record dghost := { g_ended : bool; g_kind : option bool (* true = ReadDir *) }.
 Definition ghost0 : dghost := {| g_ended := false; g_kind := None |}.
 
-Inductive dfinding :=
-| KfDirRestart        (* after io.EOF or ReadDir(n<=0) the next read starts the listing again; os stays at the end *)
-| KfDirAllAfterPartial(* ReadDir(n<=0) after a partial read returns ALL entries; os returns the remaining ones *)
-| KfDirMixedCursors   (* ReadDir and Readdirnames keep separate caches behind one index *)
-| KfDirSeek           (* Seek on a directory handle does nothing and returns 0; os rewinds / validates *)
-| KfDirZeroLenRead.   (* Read(empty buffer) on a directory handle: EISDIR; os.File: (0, nil) *)
-
-Definition dfinding_id (k : dfinding) : N :=
-  match k with KfDirRestart => 21 | KfDirAllAfterPartial => 22 | KfDirMixedCursors => 23 | KfDirSeek => 24 | KfDirZeroLenRead => 25 end%N.
-
 Definition kind_differs (g : dghost) (k : bool) : bool :=
   match g_kind g with Some k' => negb (Bool.eqb k k') | None => false end.
 
-Definition kfdir (listing : list str) (d : dfd) (g : dghost) (op : dop) : option dfinding :=
+Definition kfdir (listing : list str) (d : dfd) (g : dghost) (op : dop) : option finding :=
   if d_closed d then None
   else
     let rd (k : bool) (n : Z) :=
@@ -208,8 +126,7 @@ Definition kfdir (listing : list str) (d : dfd) (g : dghost) (op : dop) : option
     | DReadDir n => rd true n
     | DReaddirnames n => rd false n
     | DRewind => if Nat.ltb 0 (d_cursor d) && negb (g_ended g) then Some KfDirSeek else None
-    | DRead n => if Z.leb n 0 then Some KfDirZeroLenRead else None
-    | DClose => None
+    | DRead _ | DClose => None
     end.
 
 Definition dghost_step (listing : list str) (d : dfd) (g : dghost) (op : dop) : dghost :=
@@ -237,24 +154,8 @@ Definition impl_dcall (hi : nat) (op : dop) : call :=
   end.
 
 (* ---- OrefaFS ----------------------------------------------------------------------- *)
-(* OrefaFile (vfs/orefafs/orefafs_file.go) is MemFile with other lock modes and type tests; the one
-   difference in behaviour is the order of two tests in Truncate (closed before size < 0).  The
-   namespace calls the C02 histories use (OpenFile, Truncate, Rename, Link, Remove on regular files in
-   one existing directory) behave as those of MemFS. *)
-Definition handle_closed (w : world) (hi : nat) : bool :=
-  match nth_error (w_handles w) hi with
-  | Some f => match hd_node f with None => true | Some _ => false end
-  | None => false
-  end.
-
-Definition orefa_step (w : world) (op : fop) : world * res :=
-  match op with
-  | Ftruncate fd size => if handle_closed w fd then wstep w (FTruncate fd 0) else wstep w (FTruncate fd size)
-  | _ => wstep w (impl_call op)
-  end.
-
-Definition kf02_orefa (st : fstate) (op : fop) : option finding :=
-  match op with
-  | Ftruncate _ _ => None
-  | _ => kf02 st op
-  end.
+(* OrefaFile (vfs/orefafs/orefafs_file.go) is MemFile with other lock modes and type tests; the namespace
+   calls the C02 histories use (OpenFile, Truncate, Rename, Link, Remove on regular files in one existing
+   directory) behave as those of MemFS: one model, one classifier. *)
+Definition orefa_step (w : world) (op : fop) : world * res := wstep w (impl_call op).
+Definition kf02_orefa (st : fstate) (op : fop) : option finding := kf02 st op.
